@@ -127,7 +127,8 @@ def xproc_strategy():
 # zero temperature
 
 def zerot_strategy():
-    base = ag.call_spec(coefs=gen.MIXED_COEFS, stale=False,
+    base = ag.call_spec(coefs=[gen.MIXED_COEFS, gen.MIXED_COEFS, gen.MIXED_COEFS, gen.TINY_COEFS, gen.HUGE_COEFS],
+                        stale=False,
                         num_anneals=gen.pick((1, 2), (2, 2), (3, 1)),
                         seeds=st.one_of(st.none(), st.integers(0, 2 ** 31 - 1)))
 
@@ -141,7 +142,7 @@ def zerot_strategy():
     general = st.builds(fix, base, st.integers(1, 4), st.lists(st.integers(0, 1), min_size=1, max_size=8))
 
     # tie-free Matrix instances, built in spin form with distinct powers of two
-    def tiefree(func, n, keys, signs, k, bits, na, seed):
+    def tiefree(func, n, keys, signs, k, bits, na, seed, mag=0):
         spin = ag.FUNCS[func][0]
         quad = func in ag.QUAD_FUNCS
         labels = list(range(n))
@@ -155,7 +156,8 @@ def zerot_strategy():
         for i in range(n):           # every index carries a term
             if not any(i in key for key in ks):
                 ks.append((i,))
-        sterms = {key: (1 if signs[j % len(signs)] else -1) * (2 ** j) for j, key in enumerate(ks)}
+        # mag: the whole instance scaled by a power of two (exact; tiny energy differences stay energy differences)
+        sterms = {key: (1 if signs[j % len(signs)] else -1) * (2 ** j) * (2.0 ** mag if mag else 1) for j, key in enumerate(ks)}
         if spin:
             terms = [[k_, v] for k_, v in sterms.items()]
         else:
@@ -170,7 +172,7 @@ def zerot_strategy():
                    st.lists(st.lists(st.integers(0, 5), min_size=1, max_size=4), min_size=1, max_size=7),
                    st.lists(st.booleans(), min_size=1, max_size=7), st.integers(1, 4),
                    st.lists(st.integers(0, 1), min_size=1, max_size=8), st.integers(1, 2),
-                   st.one_of(st.none(), st.integers(0, 2 ** 31 - 1)))
+                   st.one_of(st.none(), st.integers(0, 2 ** 31 - 1)), st.sampled_from([0, 0, 0, -50, 40]))
     return st.one_of(general, tf, tf)
 
 
